@@ -734,6 +734,18 @@ func (e *Env) call(n ECall) Val {
 			ref = v.Ref
 		}
 		return boolVal(and(app("<", "0", ref), app("<=", ref, e.st.alloc)))
+	case "asptr":
+		// asptr(p, T): the unsafe.Pointer (or pointer) p viewed as *T
+		v := e.tr(n.Args[0])
+		ts := exprTypeString(n.Args[1])
+		t, err := x.C.ResolveType(x.P, e.pkgPath, ts)
+		if err != nil {
+			e.fail("%v", err)
+		}
+		if v.K != KScalar {
+			e.fail("asptr(): pointer expected")
+		}
+		return Val{T: types.NewPointer(t), K: KScalar, S: v.S}
 	case "memcap":
 		return Val{T: types.Typ[types.Int], K: KScalar, S: x.memcap()}
 	case "implements":
